@@ -51,8 +51,11 @@ def h_far(P, which, ord, n_cands=2, n_sibs=2, d=1, pop=2, only_active=False):
         s = mk_deme(str(j), 1, active=P.bool(f"act{j}"), population=older)
         s._history.append([list(members)])
         sibs.append(s)
-    parent._children = list(sibs)
-    tree = mk_tree([[parent], sibs])
+    # the demes on the target level belong to different parents: the filter must look at the whole level
+    other = mk_deme("p1", 0)
+    parent._children = list(sibs[:1])
+    other._children = list(sibs[1:])
+    tree = mk_tree([[parent, other], sibs])
     nord = {"1": 1, "2": 2, "inf": np.inf}[str(ord)]
     if which == "far":
         thr = P.float("min_distance", finite=True, lo=0.0)
